@@ -213,7 +213,7 @@ def run(ctx, replay):
     ctx.cov["rule"] = ("rows = states of Dmarc.tla (one per input; distinct by construction): alignment table (4 From "
                        "domains x 2 spellings x 16 identifier spellings x DKIM/MAIL FROM/HELO x r/s), verdict table "
                        "(multisets of <= MaxDkim DKIM results over pass/fail/temperror x 4 domain relations, 7 SPF values x "
-                       "4 relations, adkim x aspf, 6 From/case contexts), action table (6 verdict classes x p x sp x pct x "
+                       "4 relations, adkim x aspf, 6 From/case contexts), action table (7 identifier situations x p x sp x pct x "
                        "13/5 lookup outcomes x 3 From domains x 2 spellings), From shapes; quick runs all but a seeded "
                        "quarter of the verdict table (MaxDkim=2) through the code, thorough everything (MaxDkim=3); "
                        "non-trivial = not a verdict-table row whose identifiers are all plain non-pass/non-temperror")
